@@ -1221,9 +1221,8 @@ void read_global_motion_params(Bitstrm *bs, EbDecHandle *dec_handle, FrameHeader
             svt_memcpy(wm_global->wmmat,
                        cur_buf->global_motion[ref].gm_params,
                        sizeof(cur_buf->global_motion[ref].gm_params));
-            int return_val = svt_get_shear_params(wm_global);
-            assert(1 == return_val);
-            (void)return_val;
+            // parameters without a valid shear decomposition are not used for warping
+            wm_global->invalid = !svt_get_shear_params(wm_global);
         }
     }
 }
@@ -1310,7 +1309,8 @@ void load_grain_params(EbDecHandle *dec_handle_ptr, AomFilmGrain *grain_params,
 }
 
 // Read film grain parameters
-void read_film_grain_params(EbDecHandle *dec_handle, Bitstrm *bs, AomFilmGrain *grain_params) {
+EbErrorType read_film_grain_params(EbDecHandle *dec_handle, Bitstrm *bs,
+                                   AomFilmGrain *grain_params) {
     SeqHeader *  seq_header = &dec_handle->seq_header;
     FrameHeader *frame_info = &dec_handle->frame_header;
     int          i, num_pos_luma, num_pos_chroma;
@@ -1318,14 +1318,14 @@ void read_film_grain_params(EbDecHandle *dec_handle, Bitstrm *bs, AomFilmGrain *
     if (!seq_header->film_grain_params_present ||
         (!frame_info->show_frame && !frame_info->showable_frame)) {
         memset(grain_params, 0, sizeof(*grain_params));
-        return;
+        return EB_ErrorNone;
     }
     grain_params->apply_grain = dec_get_bits(bs, 1);
     PRINT_FRAME("apply_grain", grain_params->apply_grain);
 
     if (!grain_params->apply_grain) {
         memset(grain_params, 0, sizeof(*grain_params));
-        return;
+        return EB_ErrorNone;
     }
 
     grain_params->random_seed = dec_get_bits(bs, 16);
@@ -1339,18 +1339,22 @@ void read_film_grain_params(EbDecHandle *dec_handle, Bitstrm *bs, AomFilmGrain *
         int film_grain_params_ref_idx = dec_get_bits(bs, 3);
         PRINT_FRAME("film_grain_params_ref_idx", film_grain_params_ref_idx);
         uint16_t temp_grain_seed = grain_params->random_seed;
+        if (dec_handle->ref_frame_map[film_grain_params_ref_idx] == NULL)
+            return EB_Corrupt_Frame;
         load_grain_params(dec_handle, grain_params, film_grain_params_ref_idx);
         grain_params->random_seed = temp_grain_seed;
-        return;
+        return EB_ErrorNone;
     }
     grain_params->num_y_points = dec_get_bits(bs, 4);
-    assert(grain_params->num_y_points <= 14);
+    if (grain_params->num_y_points > 14)
+        return EB_Corrupt_Frame;
     PRINT_FRAME("num_y_points", grain_params->num_y_points);
     for (i = 0; i < grain_params->num_y_points; i++) {
         grain_params->scaling_points_y[i][0] = dec_get_bits(bs, 8);
         grain_params->scaling_points_y[i][1] = dec_get_bits(bs, 8);
-        if (i > 0)
-            assert(grain_params->scaling_points_y[i][0] > grain_params->scaling_points_y[i - 1][0]);
+        if (i > 0 &&
+            grain_params->scaling_points_y[i][0] <= grain_params->scaling_points_y[i - 1][0])
+            return EB_Corrupt_Frame;
         PRINT_FRAME("scaling_points_y[i][0]", grain_params->scaling_points_y[i][0]);
         PRINT_FRAME("scaling_points_y[i][1]", grain_params->scaling_points_y[i][1]);
     }
@@ -1368,27 +1372,29 @@ void read_film_grain_params(EbDecHandle *dec_handle, Bitstrm *bs, AomFilmGrain *
     } else {
         grain_params->num_cb_points = dec_get_bits(bs, 4);
         PRINT_FRAME("num_cb_points", grain_params->num_cb_points);
-        assert(grain_params->num_cb_points <= 10);
+        if (grain_params->num_cb_points > 10)
+            return EB_Corrupt_Frame;
         for (i = 0; i < grain_params->num_cb_points; i++) {
             grain_params->scaling_points_cb[i][0] = dec_get_bits(bs, 8);
             grain_params->scaling_points_cb[i][1] = dec_get_bits(bs, 8);
             PRINT_FRAME("scaling_points_cb[i][0]", grain_params->scaling_points_cb[i][0]);
             PRINT_FRAME("scaling_points_cb[i][1]", grain_params->scaling_points_cb[i][1]);
-            if (i > 0)
-                assert(grain_params->scaling_points_cb[i][0] >
-                       grain_params->scaling_points_cb[i - 1][0]);
+            if (i > 0 &&
+                grain_params->scaling_points_cb[i][0] <= grain_params->scaling_points_cb[i - 1][0])
+                return EB_Corrupt_Frame;
         }
         grain_params->num_cr_points = dec_get_bits(bs, 4);
         PRINT_FRAME("num_cr_points", grain_params->num_cr_points);
-        assert(grain_params->num_cr_points <= 14);
+        if (grain_params->num_cr_points > 10)
+            return EB_Corrupt_Frame;
         for (i = 0; i < grain_params->num_cr_points; i++) {
             grain_params->scaling_points_cr[i][0] = dec_get_bits(bs, 8);
             grain_params->scaling_points_cr[i][1] = dec_get_bits(bs, 8);
             PRINT_FRAME("scaling_points_cr[i][0]", grain_params->scaling_points_cr[i][0]);
             PRINT_FRAME("scaling_points_cr[i][1]", grain_params->scaling_points_cr[i][1]);
-            if (i > 0)
-                assert(grain_params->scaling_points_cr[i][0] >
-                       grain_params->scaling_points_cr[i - 1][0]);
+            if (i > 0 &&
+                grain_params->scaling_points_cr[i][0] <= grain_params->scaling_points_cr[i - 1][0])
+                return EB_Corrupt_Frame;
         }
     }
 
@@ -1396,7 +1402,7 @@ void read_film_grain_params(EbDecHandle *dec_handle, Bitstrm *bs, AomFilmGrain *
         (seq_header->color_config.subsampling_y == 1) &&
         (((grain_params->num_cb_points == 0) && (grain_params->num_cr_points != 0)) ||
          ((grain_params->num_cb_points != 0) && (grain_params->num_cr_points == 0))))
-        return; // EB_DecUnsupportedBitstream;
+        return EB_DecUnsupportedBitstream;
 
     grain_params->scaling_shift = dec_get_bits(bs, 2) + 8;
     grain_params->ar_coeff_lag  = dec_get_bits(bs, 2);
@@ -1448,6 +1454,7 @@ void read_film_grain_params(EbDecHandle *dec_handle, Bitstrm *bs, AomFilmGrain *
     grain_params->clip_to_restricted_range = dec_get_bits(bs, 1);
     PRINT_FRAME("overlap_flag", grain_params->overlap_flag);
     PRINT_FRAME("clip_to_restricted_range", grain_params->clip_to_restricted_range);
+    return EB_ErrorNone;
 }
 
 int seg_feature_active_idx(SegmentationParams *seg_params, int segment_id,
@@ -1732,8 +1739,8 @@ static void check_mt_support(EbDecHandle *dec_handle_ptr) {
     }
 }
 
-void read_uncompressed_header(Bitstrm *bs, EbDecHandle *dec_handle_ptr, ObuHeader *obu_header,
-                              int num_planes) {
+EbErrorType read_uncompressed_header(Bitstrm *bs, EbDecHandle *dec_handle_ptr,
+                                     ObuHeader *obu_header, int num_planes) {
     SeqHeader *  seq_header = &dec_handle_ptr->seq_header;
     FrameHeader *frame_info = &dec_handle_ptr->frame_header;
     int          id_len = 0, all_frames, frame_is_intra = 0, frame_size_override_flag = 0;
@@ -1766,9 +1773,12 @@ void read_uncompressed_header(Bitstrm *bs, EbDecHandle *dec_handle_ptr, ObuHeade
                 PRINT_FRAME("display_frame_id", display_frame_id);
                 if (display_frame_id != frame_info->ref_frame_idx[frame_to_show_map_idx] &&
                     frame_info->ref_valid[frame_to_show_map_idx] == 1)
-                    return; // EB_Corrupt_Frame;
+                    return EB_Corrupt_Frame;
             }
 
+            // the slot must hold a picture
+            if (dec_handle_ptr->ref_frame_map[frame_to_show_map_idx] == NULL)
+                return EB_Corrupt_Frame;
             dec_handle_ptr->cur_pic_buf[0] = dec_handle_ptr->ref_frame_map[frame_to_show_map_idx];
             frame_info->frame_type         = dec_handle_ptr->cur_pic_buf[0]->frame_type;
 
@@ -1789,7 +1799,7 @@ void read_uncompressed_header(Bitstrm *bs, EbDecHandle *dec_handle_ptr, ObuHeade
             dec_handle_ptr->show_existing_frame = frame_info->show_existing_frame;
             dec_handle_ptr->show_frame          = frame_info->show_frame;
             dec_handle_ptr->showable_frame      = frame_info->showable_frame;
-            return;
+            return EB_ErrorNone;
         }
 
         frame_info->frame_type = dec_get_bits(bs, 2);
@@ -1856,7 +1866,7 @@ void read_uncompressed_header(Bitstrm *bs, EbDecHandle *dec_handle_ptr, ObuHeade
                 : (1 << id_len) + frame_info->current_frame_id - prev_frame_id;
             // Bitstream conformance
             if (frame_info->current_frame_id == prev_frame_id || diff_frame_id >= 1 << (id_len - 1))
-                return; // EB_Corrupt_Frame;
+                return EB_Corrupt_Frame;
         }
 
         //mark_ref_frames( id_len )
@@ -1938,6 +1948,12 @@ void read_uncompressed_header(Bitstrm *bs, EbDecHandle *dec_handle_ptr, ObuHeade
     if (frame_is_intra) {
         read_frame_size(bs, seq_header, frame_info, frame_size_override_flag);
         read_render_size(bs, frame_info);
+        // the decoder's buffers are sized from the sequence header
+        if (frame_info->frame_size.frame_width == 0 || frame_info->frame_size.frame_height == 0 ||
+            frame_info->frame_size.superres_upscaled_width > seq_header->max_frame_width ||
+            frame_info->frame_size.frame_width > seq_header->max_frame_width ||
+            frame_info->frame_size.frame_height > seq_header->max_frame_height)
+            return EB_Corrupt_Frame;
         if (frame_info->allow_screen_content_tools && frame_info->frame_size.render_width) {
             if (frame_info->allow_screen_content_tools &&
                 frame_info->frame_size.frame_width ==
@@ -1959,7 +1975,9 @@ void read_uncompressed_header(Bitstrm *bs, EbDecHandle *dec_handle_ptr, ObuHeade
                 int gold_frame_idx = dec_get_bits(bs, 3);
                 PRINT_FRAME("last_frame_idx", last_frame_idx);
                 PRINT_FRAME("gold_frame_idx", gold_frame_idx);
-                svt_set_frame_refs(dec_handle_ptr, last_frame_idx, gold_frame_idx);
+                if (svt_set_frame_refs(dec_handle_ptr, last_frame_idx, gold_frame_idx) !=
+                    EB_ErrorNone)
+                    return EB_Corrupt_Frame;
             }
         }
 
@@ -1971,6 +1989,10 @@ void read_uncompressed_header(Bitstrm *bs, EbDecHandle *dec_handle_ptr, ObuHeade
                 dec_handle_ptr->remapped_ref_idx[i] = frame_info->ref_frame_idx[i];
             }
             int ref_frm_id = dec_handle_ptr->remapped_ref_idx[i];
+            // a reference slot that holds no picture cannot be predicted from
+            if (ref_frm_id < 0 || ref_frm_id >= REF_FRAMES ||
+                dec_handle_ptr->ref_frame_map[ref_frm_id] == NULL)
+                return EB_Corrupt_Frame;
 
             frame_info->ref_frame_sign_bias[LAST_FRAME + i] = 0;
 
@@ -1982,8 +2004,7 @@ void read_uncompressed_header(Bitstrm *bs, EbDecHandle *dec_handle_ptr, ObuHeade
                                                (delta_frame_id_length_minus_1 + 1)) %
                                               (1 << id_len));
                 if (expected_frame_id != frame_info->ref_frame_id[ref_frm_id]) {
-                    assert(0);
-                    return; // EB_Corrupt_Frame;
+                    return EB_Corrupt_Frame;
                 }
             }
         }
@@ -1994,6 +2015,12 @@ void read_uncompressed_header(Bitstrm *bs, EbDecHandle *dec_handle_ptr, ObuHeade
             read_frame_size(bs, seq_header, frame_info, frame_size_override_flag);
             read_render_size(bs, frame_info);
         }
+        // the decoder's buffers are sized from the sequence header
+        if (frame_info->frame_size.frame_width == 0 || frame_info->frame_size.frame_height == 0 ||
+            frame_info->frame_size.superres_upscaled_width > seq_header->max_frame_width ||
+            frame_info->frame_size.frame_width > seq_header->max_frame_width ||
+            frame_info->frame_size.frame_height > seq_header->max_frame_height)
+            return EB_Corrupt_Frame;
         if (frame_info->force_integer_mv)
             frame_info->allow_high_precision_mv = 0;
         else {
@@ -2009,7 +2036,7 @@ void read_uncompressed_header(Bitstrm *bs, EbDecHandle *dec_handle_ptr, ObuHeade
             SVT_LOG(
                 "Reference frame containing this frame's initial "
                 "frame context is unavailable.");
-            assert(0);
+            return EB_Corrupt_Frame;
         }
         if (frame_info->error_resilient_mode || !seq_header->order_hint_info.enable_ref_frame_mvs)
             frame_info->use_ref_frame_mvs = 0;
@@ -2029,7 +2056,7 @@ void read_uncompressed_header(Bitstrm *bs, EbDecHandle *dec_handle_ptr, ObuHeade
 
             if ((!av1_is_valid_scale(ref_scale_factors))) {
                 SVT_LOG("\n Reference frame has invalid dimensions \n");
-                assert(0);
+                return EB_Corrupt_Frame;
             }
         }
     }
@@ -2044,6 +2071,8 @@ void read_uncompressed_header(Bitstrm *bs, EbDecHandle *dec_handle_ptr, ObuHeade
         dec_handle_ptr->dec_config.max_color_format = EB_YUV444;
 
     dec_handle_ptr->cur_pic_buf[0] = dec_pic_mgr_get_cur_pic(dec_handle_ptr);
+    if (dec_handle_ptr->cur_pic_buf[0] == NULL)
+        return EB_ErrorInsufficientResources;
 
     svt_setup_frame_buf_refs(dec_handle_ptr);
     /*Temporal MVs allocation */
@@ -2079,6 +2108,9 @@ void read_uncompressed_header(Bitstrm *bs, EbDecHandle *dec_handle_ptr, ObuHeade
     else
         /* Load CDF */
         main_parse_ctx->init_frm_ctx = dec_handle_ptr->prev_frame->final_frm_ctx;
+    /* a picture whose tile data never arrives can still become a reference:
+       its saved context must hold valid CDFs */
+    dec_handle_ptr->cur_pic_buf[0]->final_frm_ctx = main_parse_ctx->init_frm_ctx;
 
     TilesInfo tiles_info = dec_handle_ptr->frame_header.tiles_info;
 
@@ -2155,7 +2187,10 @@ void read_uncompressed_header(Bitstrm *bs, EbDecHandle *dec_handle_ptr, ObuHeade
     PRINT_FRAME("reduced_tx_set", frame_info->reduced_tx_set);
     read_global_motion_params(bs, dec_handle_ptr, frame_info, frame_is_intra);
 
-    read_film_grain_params(dec_handle_ptr, bs, &frame_info->film_grain_params);
+    EbErrorType grain_status = read_film_grain_params(
+        dec_handle_ptr, bs, &frame_info->film_grain_params);
+    if (grain_status != EB_ErrorNone)
+        return grain_status;
 
     dec_handle_ptr->cur_pic_buf[0]->film_grain_params =
         dec_handle_ptr->frame_header.film_grain_params;
@@ -2169,6 +2204,7 @@ void read_uncompressed_header(Bitstrm *bs, EbDecHandle *dec_handle_ptr, ObuHeade
         if (!frame_info->show_existing_frame)
             svt_setup_motion_field(dec_handle_ptr, NULL);
     }
+    return EB_ErrorNone;
 }
 
 EbErrorType read_frame_header_obu(Bitstrm *bs, EbDecHandle *dec_handle_ptr, ObuHeader *obu_header,
@@ -2179,7 +2215,9 @@ EbErrorType read_frame_header_obu(Bitstrm *bs, EbDecHandle *dec_handle_ptr, ObuH
     uint32_t start_position, end_position, header_bytes;
 
     start_position = get_position(bs);
-    read_uncompressed_header(bs, dec_handle_ptr, obu_header, num_planes);
+    status         = read_uncompressed_header(bs, dec_handle_ptr, obu_header, num_planes);
+    if (status != EB_ErrorNone)
+        return status;
 
     if (allow_intrabc(dec_handle_ptr)) {
         svt_av1_setup_scale_factors_for_frame(&dec_handle_ptr->sf_identity,
@@ -2195,10 +2233,14 @@ EbErrorType read_frame_header_obu(Bitstrm *bs, EbDecHandle *dec_handle_ptr, ObuH
             return status;
     }
 
-    byte_alignment(bs);
+    // non-zero padding leaves the reader between two bytes: the byte accounting below needs it aligned
+    if (byte_alignment(bs))
+        return EB_Corrupt_Frame;
 
     end_position = get_position(bs);
     header_bytes = (end_position - start_position) / 8;
+    if (header_bytes > obu_header->payload_size)
+        return EB_Corrupt_Frame;
     obu_header->payload_size -= header_bytes;
 
     return status;
@@ -2252,9 +2294,12 @@ EbErrorType read_tile_group_obu(Bitstrm *bs, EbDecHandle *dec_handle_ptr, TilesI
 
     *is_last_tg = ((tg_end + 1) == num_tiles);
 
-    byte_alignment(bs);
+    if (byte_alignment(bs))
+        return EB_Corrupt_Frame;
     end_position = get_position(bs);
     header_bytes = (end_position - start_position) / 8;
+    if (header_bytes > obu_header->payload_size)
+        return EB_Corrupt_Frame;
     obu_header->payload_size -= header_bytes;
 
     dec_handle_ptr->cm.mi_cols       = dec_handle_ptr->frame_header.mi_cols;
@@ -2553,17 +2598,33 @@ EbErrorType decode_multiple_obu(EbDecHandle *dec_handle_ptr, uint8_t **data, siz
             BlockSize prev_sb_size          = dec_handle_ptr->seq_header.sb_size;
             uint16_t  prev_max_frame_width  = dec_handle_ptr->seq_header.max_frame_width;
             uint16_t  prev_max_frame_height = dec_handle_ptr->seq_header.max_frame_height;
+            uint32_t       prev_bit_depth   = dec_handle_ptr->seq_header.color_config.bit_depth;
+            uint8_t        prev_mono_chrome = dec_handle_ptr->seq_header.color_config.mono_chrome;
+            uint8_t        prev_ss_x        = dec_handle_ptr->seq_header.color_config.subsampling_x;
+            uint8_t        prev_ss_y        = dec_handle_ptr->seq_header.color_config.subsampling_y;
 
-            status = read_sequence_header_obu(&bs, &dec_handle_ptr->seq_header);
+            // a sequence header that fails to parse must not replace the active one
+            SeqHeader new_seq_header = dec_handle_ptr->seq_header;
+            status                   = read_sequence_header_obu(&bs, &new_seq_header);
             if (status != EB_ErrorNone)
                 return status;
+            // 65536 does not fit the 16-bit size fields
+            if (new_seq_header.max_frame_width == 0 || new_seq_header.max_frame_height == 0)
+                return EB_DecUnsupportedBitstream;
+            dec_handle_ptr->seq_header = new_seq_header;
             if (dec_handle_ptr->seq_header.color_config.bit_depth == EB_TWELVE_BIT)
                 dec_init_intra_predictors_12b_internal();
             dec_handle_ptr->seq_header_done = 1;
             if (prev_sb_size != dec_handle_ptr->seq_header.sb_size ||
                 prev_max_frame_width != dec_handle_ptr->seq_header.max_frame_width ||
-                prev_max_frame_height != dec_handle_ptr->seq_header.max_frame_height) {
-                dec_handle_ptr->mem_init_done = 0;
+                prev_max_frame_height != dec_handle_ptr->seq_header.max_frame_height ||
+                prev_bit_depth != dec_handle_ptr->seq_header.color_config.bit_depth ||
+                prev_mono_chrome != dec_handle_ptr->seq_header.color_config.mono_chrome ||
+                prev_ss_x != dec_handle_ptr->seq_header.color_config.subsampling_x ||
+                prev_ss_y != dec_handle_ptr->seq_header.color_config.subsampling_y) {
+                // buffers and references of the previous sequence cannot be used any more
+                dec_handle_ptr->mem_init_done     = 0;
+                dec_handle_ptr->seen_frame_header = 0;
             }
             break;
         }
@@ -2581,10 +2642,17 @@ EbErrorType decode_multiple_obu(EbDecHandle *dec_handle_ptr, uint8_t **data, siz
                 assert(dec_handle_ptr->seen_frame_header == 1);
             }
 
+            // frame headers need the sequence header and the memory sized from it
+            if (!dec_handle_ptr->seq_header_done || !dec_handle_ptr->mem_init_done)
+                return EB_Corrupt_Frame;
             if (!dec_handle_ptr->seen_frame_header) {
                 dec_handle_ptr->seen_frame_header = 1;
                 status                            = read_frame_header_obu(
                     &bs, dec_handle_ptr, &obu_header, obu_header.obu_type != OBU_FRAME);
+                if (status != EB_ErrorNone) {
+                    dec_handle_ptr->seen_frame_header = 0;
+                    return status;
+                }
             }
             /*else {
                  For OBU_REDUNDANT_FRAME_HEADER, previous frame_header is taken from dec_handle_ptr->frame_header
@@ -2598,7 +2666,7 @@ EbErrorType decode_multiple_obu(EbDecHandle *dec_handle_ptr, uint8_t **data, siz
         case OBU_TILE_GROUP:
         TITLE_GROUP:
             PRINT_NAME("**************OBU_TILE_GROUP*******************");
-            if (!dec_handle_ptr->seen_frame_header)
+            if (!dec_handle_ptr->seen_frame_header || !dec_handle_ptr->mem_init_done)
                 return EB_Corrupt_Frame;
             status = read_tile_group_obu(&bs,
                                          dec_handle_ptr,
